@@ -105,6 +105,32 @@ def _counts_newlines(it):
     return False
 
 
+def _posn(n):
+    sp = n.get("sp") if isinstance(n, dict) else None
+    try:
+        _f, l, c = sp.rsplit(":", 2)
+        return (int(l), int(c))
+    except (AttributeError, ValueError):
+        return (0, 0)
+
+
+def _tup_tails(e, depth=0):
+    """tuple-valued tails of an if / block / match expression"""
+    e = peel(e)
+    if not isinstance(e, dict) or depth > 6:
+        return []
+    k = e.get("k")
+    if k == "Tup":
+        return [e]
+    if k == "Block":
+        return _tup_tails(e["e"], depth + 1) if e.get("e") is not None else []
+    if k == "If":
+        return _tup_tails(e["t"], depth + 1) + (_tup_tails(e["e"], depth + 1) if e.get("e") else [])
+    if k == "Match":
+        return [t for a in e["arms"] for t in _tup_tails(a["body"], depth + 1)]
+    return []
+
+
 def unit_rules(F, rep, rule="UNIT"):
     """byte offsets index char_at_byte only; columns are char - char"""
     fn = F.fn(FN)
@@ -154,6 +180,10 @@ def unit_rules(F, rep, rule="UNIT"):
                         return "charidx" if o["path"] == (("tuple", 0),) else "byte" if o["path"] == (("tuple", 1), ("tuple", 0)) else "?"
                 if o["kind"] == "let" and o["path"] == ():
                     return unit(o["src"], depth + 1)
+                if o["kind"] == "let" and o["path"] and o["path"][0][0] == "tuple":
+                    # let (a, b) = if .. { (x, y) } else { (u, v) }: every branch must give the same unit
+                    us = {unit(t["es"][o["path"][0][1]], depth + 1) for t in _tup_tails(o["src"]) if o["path"][0][1] < len(t["es"])}
+                    return us.pop() if len(us) == 1 else "BAD(branches disagree: %s)" % sorted(us)
             return "?"
         return "?"
 
@@ -179,8 +209,28 @@ def unit_rules(F, rep, rule="UNIT"):
                     u = unit(f["e"])
                     rep.ob(rule, "Span.%s" % f["name"], u == "col",
                            "%s is computed as %s (must be char index - char index of the last newline)" % (f["name"], u), line_of(s))
-                if f["name"] in ("line_start", "line_end"):
-                    rep.ob(rule, "Span.%s" % f["name"], peel(f["e"]).get("name") == "line", "%s is the current line counter" % f["name"], line_of(s))
+                if f["name"] == "line_start":
+                    v = peel(f["e"])
+                    o1 = fl.origin.get(v.get("hid")) if v.get("k") == "Path" else None
+                    src = v if v.get("name") == "line" else \
+                        peel(o1["src"]) if o1 and o1["kind"] == "let" and o1["path"] == () and o1.get("src") is not None else v
+                    first_bump = min([_posn(a) for a in nodes(body) if a.get("k") in ("Assign", "AssignOp") and peel(a["l"]).get("name") == "line"] or [(10**9, 0)])
+                    ok = src.get("k") == "Path" and src.get("name") == "line" and _posn(src) < first_bump
+                    rep.ob(rule, "Span.line_start", ok, "line_start is the line counter as it stands before the token's own newlines are counted", line_of(s))
+                if f["name"] == "line_end":
+                    # the line counter after the token's own newlines were counted (a Newline token ends on its own line)
+                    v = peel(f["e"])
+                    o = fl.origin.get(v.get("hid")) if v.get("k") == "Path" else None
+                    loops = [_posn(lp) for lp in nodes(body, "ForLoop") if "match_indices" in pp(lp["iter"])]
+                    ok = False
+                    if o and o["path"] and o["path"][0][0] == "tuple":
+                        ends = [peel(t["es"][o["path"][0][1]]) for t in _tup_tails(o["src"])]
+                        after = [e for e in ends if e.get("name") == "line" and loops and _posn(e) > max(loops)]
+                        start = [e for e in ends if e.get("name") == "line_start"]
+                        ok = len(after) >= 1 and len(after) + len(start) == len(ends)
+                    rep.ob(rule, "Span.line_end", ok,
+                           "line_end is the line counter after the newlines inside the token were counted (a token that spans lines "
+                           "ends on its last line)", line_of(s))
     # construction of char_at_byte: entry at byte `pos` is the 1-based char index; a final entry for the exclusive end
     built = pushed = False
     for x in nodes(body, "Assign"):
